@@ -70,6 +70,8 @@ pub struct Client {
     pub id: [u8; 20],
     pub board: Arc<Mutex<TokenBoard>>,
     pub counter: u32,
+    /// announce (hash 1, implied port) with every token it is handed, at once
+    pub grab_and_announce: bool,
 }
 
 impl Client {
@@ -98,12 +100,16 @@ impl Peer for Client {
     fn as_any(&self) -> &dyn Any {
         self
     }
-    fn on_datagram(&mut self, _ctx: &mut PeerCtx, bytes: &[u8], from: SocketAddr) {
+    fn on_datagram(&mut self, ctx: &mut PeerCtx, bytes: &[u8], from: SocketAddr) {
         if from == self.node {
             let p = krpc::parse(bytes);
             if p.valid && p.y == 'r' {
                 if let Some(t) = p.token {
-                    self.board.lock().unwrap().last.insert(self.addr, t);
+                    self.board.lock().unwrap().last.insert(self.addr, t.clone());
+                    if self.grab_and_announce {
+                        let tid = self.tid(None);
+                        ctx.out.push((self.node, krpc::announce_peer(&tid, &self.id, &hash_n(1), &t, None)));
+                    }
                 }
             }
         }
@@ -140,6 +146,12 @@ impl Peer for Client {
                     "random" => vec![0x5a; 20],
                     "short" => board.last.get(&self.addr).map(|t| t[..t.len().min(19)].to_vec()).unwrap_or_else(|| vec![1; 19]),
                     "long" => vec![0x5b; 21],
+                    // a genuinely issued token with one more byte appended (never issued as such)
+                    "plus" => {
+                        let mut t = board.last.get(&self.addr).cloned().unwrap_or_else(|| vec![0x57; 20]);
+                        t.push(0x21);
+                        t
+                    }
                     "empty" => vec![],
                     "previous" => board.previous_instance.clone(),
                     other => {
@@ -189,7 +201,7 @@ pub fn build(cfg: &NodeCfg, extra_clients: usize, rng_seed: u64) -> Built {
     for i in 0..(n_clients() + extra_clients) {
         let mut id = SplitMix(0xc11e + i as u64).bytes20();
         id[0] = 0x20 + i as u8;
-        peers.push(Box::new(Client { addr: client_addr(i), node: naddr, id, board: board.clone(), counter: 0 }));
+        peers.push(Box::new(Client { addr: client_addr(i), node: naddr, id, board: board.clone(), counter: 0, grab_and_announce: false }));
     }
     sc.nodes.push(NodeSpec {
         addr: naddr,
